@@ -216,6 +216,12 @@ def run(ctx):
             h, mi, s = 24, 0, 0
         for off in offs:
             lines.append("ODT %d %d %d %d %d %d %d" % (y, mo, dd, h, mi, s, off))
+    # the first and the last day of the supported range with every offset (the UTC date of such a value may lie outside the range;
+    # its printed form is still exact and parses back)
+    for (y, mo, dd) in ((1873, 1, 1), (2127, 12, 31), (1873, 1, 2), (2127, 12, 30)):
+        for (h, mi, s) in ((0, 0, 0), (0, 30, 0), (12, 0, 0), (23, 30, 0), (23, 59, 59)):
+            for off in offs:
+                lines.append("ODT %d %d %d %d %d %d %d" % (y, mo, dd, h, mi, s, off))
     # zoned
     for db in ("x", "b"):
         for zi in range(len(names[db])):
